@@ -1704,3 +1704,19 @@ def _relative_radius_spellings(repo, ob, failure):
 
 GENERATORS.insert(0, ("C09.size_attr.", _relative_radius_spellings))
 GENERATORS.insert(0, ("C11.size_attr.", _relative_radius_spellings))
+
+
+def _text_anchor_spellings(repo, ob, failure):
+    """a <text> anchored by cxy / xy-loc / x2 y2 is written at that point, with no foreign attribute left"""
+    import re as _re
+    for doc, want in [('<svg><text cxy="10 10">a</text></svg>', 'x="10" y="10"'), ('<svg><text x2="20" y2="8">c</text></svg>', 'x="20" y="8"')]:
+        r = run_svgdx(repo, doc, args=("--no-auto-styles",))
+        m = _re.search(r"<text [^>]*>", r["out"])
+        if r["rc"] == 0 and m and (want not in m.group(0) or "cx=" in m.group(0) or "x2=" in m.group(0)):
+            return {"input": doc, "args": ["--no-auto-styles"], "observed": m.group(0), "expected": "<text %s class=..>" % want}
+    return None
+
+
+GENERATORS.insert(0, ("C19.anchor.any_spelling", _text_anchor_spellings))
+GENERATORS.insert(0, ("C19.anchor.text_located", _text_anchor_spellings))
+GENERATORS.insert(0, ("C09.point.any_spelling", _text_anchor_spellings))
